@@ -2,6 +2,7 @@ package main
 
 import (
 	"fmt"
+	"go/constant"
 	"go/token"
 	"go/types"
 	"sort"
@@ -404,6 +405,82 @@ func belowLen(in ssa.Instruction, idx ssa.Value, base string) bool {
 	return false
 }
 
+// helperBounded: idx is result #0 of h(…, len(base), …) whose result #1 (a bool) was tested true on this path, and
+// every return of h that can yield true there returns a value proved 0 ≤ v < that length parameter by h's own
+// dominating facts (or yields `v < length` itself as the bool, with 0 ≤ v proved).
+func helperBounded(in ssa.Instruction, idx ssa.Value, base string) string {
+	ex, ok := idx.(*ssa.Extract)
+	if !ok || ex.Index != 0 {
+		return ""
+	}
+	call, ok := ex.Tuple.(*ssa.Call)
+	if !ok {
+		return ""
+	}
+	h := call.Call.StaticCallee()
+	if h == nil || len(h.Blocks) == 0 || h.Signature.Results().Len() != 2 {
+		return ""
+	}
+	if b, isB := h.Signature.Results().At(1).Type().Underlying().(*types.Basic); !isB || b.Kind() != types.Bool {
+		return ""
+	}
+	// the bool result was tested true
+	tested := false
+	for _, ec := range factsAt(in) {
+		if e2, isE := ec.Cond.(*ssa.Extract); isE && e2.Tuple == ex.Tuple && e2.Index == 1 && ec.Pol {
+			tested = true
+		}
+	}
+	if !tested {
+		return ""
+	}
+	// which parameter receives len(base)
+	pj := -1
+	for k, a := range call.Call.Args {
+		if lp, isLen := lenOf(a); isLen && lp == base && k < len(h.Params) {
+			pj = k
+		}
+	}
+	if pj < 0 {
+		return ""
+	}
+	lenParam := h.Params[pj]
+	okAll, n := true, 0
+	allInstrs(h, func(i2 ssa.Instruction) {
+		ret, isR := i2.(*ssa.Return)
+		if !isR || len(ret.Results) != 2 {
+			return
+		}
+		if c, isC := ret.Results[1].(*ssa.Const); isC && c.Value != nil && !constant.BoolVal(c.Value) {
+			return // (…, false): the caller leaves
+		}
+		n++
+		v := ret.Results[0]
+		upper := false
+		if bo, isB := ret.Results[1].(*ssa.BinOp); isB && bo.Op == token.LSS && bo.X == v && bo.Y == ssa.Value(lenParam) {
+			upper = true
+		}
+		if c, isC := ret.Results[1].(*ssa.Const); isC && c.Value != nil && constant.BoolVal(c.Value) {
+			for _, ec := range factsAt(ret) {
+				bo, isB := ec.Cond.(*ssa.BinOp)
+				if !isB || bo.X != v || bo.Y != ssa.Value(lenParam) {
+					continue
+				}
+				if (bo.Op == token.LSS && ec.Pol) || (bo.Op == token.GEQ && !ec.Pol) {
+					upper = true
+				}
+			}
+		}
+		if !upper || !nonNegative(ret, v) {
+			okAll = false
+		}
+	})
+	if okAll && n > 0 {
+		return fmt.Sprintf("%s(…, len(%s)) reported ok, and its every ok return yields 0 ≤ v < %s by its own guards", h.Name(), base, lenParam.Name())
+	}
+	return ""
+}
+
 func (d *dischargeCtx) dischargeIndex(f *ssa.Function, in ssa.Instruction, base, idx ssa.Value) string {
 	bp := path(base)
 	// parser shape invariant: a list field that every grammar action fills with at least one element
@@ -450,6 +527,9 @@ func (d *dischargeCtx) dischargeIndex(f *ssa.Function, in ssa.Instruction, base,
 	// two-sided guard
 	if nonNegative(in, idx) && belowLen(in, idx, bp) {
 		return "dominated by 0 ≤ index < len(" + bp + ")"
+	}
+	if why := helperBounded(in, idx, bp); why != "" {
+		return why
 	}
 	return ""
 }
